@@ -1223,6 +1223,241 @@ func genDoc(r *rand.Rand) ([]byte, *docSpec) {
 	return b.bytes(cat), d
 }
 
+// ---- documents with shared resource dictionaries
+
+type sharedSpec struct {
+	layout  int            // 0 per-page Resources with indirect category dicts, 1 one shared indirect Resources, 2 inherited, 3 inherited + per-page (same dicts), 4 inherited ProcSet only + per-page
+	resObj  int            // object number of the shared Resources dict (0: direct on the page tree root / none)
+	rootObj int            // page tree root
+	catObj  map[string]int // category -> object number of the indirect category dict (0: direct)
+	names   map[string][]string
+	objs    map[string]int        // "Cat/Name" -> object number
+	used    []map[string][]string // per page: category -> names used by the content
+}
+
+func useOp(cat, n string) string {
+	switch cat {
+	case "Font":
+		return "BT /" + n + " 12 Tf (a) Tj ET "
+	case "XObject":
+		return "q /" + n + " Do Q "
+	case "ExtGState":
+		return "/" + n + " gs "
+	case "ColorSpace":
+		return "/" + n + " cs "
+	case "Pattern":
+		return "/Pattern cs /" + n + " scn "
+	case "Shading":
+		return "/" + n + " sh "
+	}
+	return "/Tag /" + n + " BDC EMC "
+}
+
+func genSharedDoc(r *rand.Rand) ([]byte, *sharedSpec) {
+	b := &pdfb{}
+	d := &docSpec{}
+	cat := b.add("")
+	root := b.add("")
+	sp := &sharedSpec{layout: r.Intn(5), rootObj: root, catObj: map[string]int{}, names: map[string][]string{}, objs: map[string]int{}}
+	shading := func(c string) string {
+		return "<< /ShadingType 2 /ColorSpace /DeviceGray /Coords [0 0 " + c + " 1] /Function << /FunctionType 2 /Domain [0 1] /C0 [0] /C1 [1] /N 1 >> >>"
+	}
+	mk := func(c string, i int) int {
+		v := pick(r, "1", "1", "2")
+		switch c {
+		case "Font":
+			return addFont(b, r, d)
+		case "XObject":
+			if r.Intn(3) == 0 {
+				return addForm(b, r, d)
+			}
+			return addImage(b, r, d, true)
+		case "ExtGState":
+			return b.add("<< /Type /ExtGState /LW " + v + " >>")
+		case "ColorSpace":
+			return b.add("[/CalGray << /WhitePoint [1 1 1] /Gamma " + v + " >>]")
+		case "Pattern":
+			return b.add("<< /Type /Pattern /PatternType 2 /Shading " + shading(v) + " >>")
+		case "Shading":
+			return b.add(shading(v))
+		}
+		return b.add("<< /MCID " + strconv.Itoa(i) + " /V " + v + " >>")
+	}
+	prefix := map[string]string{"Font": "F", "XObject": "X", "ExtGState": "GS", "ColorSpace": "CS", "Pattern": "P", "Shading": "Sh", "Properties": "MC"}
+	catDict := map[string]string{}
+	var cats []string
+	for _, c := range resCats {
+		if c != "Font" && r.Intn(3) == 0 {
+			continue // category absent
+		}
+		cats = append(cats, c)
+		body := "<< "
+		for i, n := 1, 2+r.Intn(2); i <= n; i++ {
+			nm := prefix[c] + strconv.Itoa(i)
+			o := mk(c, i)
+			sp.names[c] = append(sp.names[c], nm)
+			sp.objs[c+"/"+nm] = o
+			body += fmt.Sprintf("/%s %d 0 R ", nm, o)
+		}
+		body += ">>"
+		if sp.layout == 0 || sp.layout >= 3 || r.Intn(2) == 0 {
+			sp.catObj[c] = b.add(body)
+			catDict[c] = fmt.Sprintf("%d 0 R", sp.catObj[c])
+		} else {
+			catDict[c] = body
+		}
+	}
+	resBody := "<< "
+	for _, c := range cats {
+		resBody += "/" + c + " " + catDict[c] + " "
+	}
+	resBody += ">>"
+	nPages := 2 + r.Intn(3)
+	var kids []string
+	pageRes, rootRes := "", ""
+	switch sp.layout {
+	case 0:
+		pageRes = "/Resources " + resBody
+	case 1:
+		sp.resObj = b.add(resBody)
+		pageRes = fmt.Sprintf("/Resources %d 0 R", sp.resObj)
+	case 2, 3:
+		if r.Intn(2) == 0 {
+			sp.resObj = b.add(resBody)
+			rootRes = fmt.Sprintf("/Resources %d 0 R", sp.resObj)
+		} else {
+			rootRes = "/Resources " + resBody
+		}
+		if sp.layout == 3 {
+			pageRes = "/Resources " + resBody // same shared indirect category dicts again
+		}
+	}
+	if sp.layout == 4 {
+		// the inherited Resources have none of the categories: every (shared, indirect)
+		// category dict of the page's own Resources is added to the inherited ones
+		rootRes = "/Resources << /ProcSet [/PDF /Text] >>"
+		pageRes = "/Resources " + resBody
+	}
+	for p := 0; p < nPages; p++ {
+		used := map[string][]string{}
+		var content strings.Builder
+		for _, c := range cats {
+			for _, n := range sp.names[c] {
+				// different and overlapping subsets; a page may use nothing of a category
+				if r.Intn(2) == 0 {
+					used[c] = append(used[c], n)
+					content.WriteString(useOp(c, n))
+				}
+			}
+		}
+		if len(used["Font"]) == 0 {
+			n := sp.names["Font"][p%len(sp.names["Font"])]
+			used["Font"] = append(used["Font"], n)
+			content.WriteString(useOp("Font", n))
+		}
+		sp.used = append(sp.used, used)
+		c := b.stream("", []byte(content.String()))
+		kids = append(kids, fmt.Sprintf("%d 0 R", b.add(fmt.Sprintf("<< /Type /Page /Parent %d 0 R %s /Contents %d 0 R >>", root, pageRes, c))))
+	}
+	b.set(root, fmt.Sprintf("<< /Type /Pages /Count %d /Kids [%s] /MediaBox [0 0 612 792] %s >>", nPages, strings.Join(kids, " "), rootRes))
+	b.set(cat, fmt.Sprintf("<< /Type /Catalog /Pages %d 0 R >>", root))
+	return b.bytes(cat), sp
+}
+
+func kvString(d types.Dict) string {
+	p := []string{}
+	for _, k := range sortedKeys(d) {
+		v := "0"
+		if ir, ok := d[k].(types.IndirectRef); ok {
+			v = vh.Int(int64(ir.ObjectNumber))
+		}
+		p = append(p, hx(k)+"="+v)
+	}
+	return strings.Join(p, ",")
+}
+
+// sharedCat returns the category dict at its shared location.
+func sharedCat(ctx *model.Context, sp *sharedSpec, c string) types.Dict {
+	if nr := sp.catObj[c]; nr != 0 {
+		d, _ := ctx.DereferenceDict(*types.NewIndirectRef(nr, 0))
+		return d
+	}
+	holder := sp.resObj
+	var res types.Dict
+	if holder != 0 {
+		res, _ = ctx.DereferenceDict(*types.NewIndirectRef(holder, 0))
+	} else {
+		rd, _ := ctx.DereferenceDict(*types.NewIndirectRef(sp.rootObj, 0))
+		if rd != nil {
+			res, _ = ctx.DereferenceDict(rd["Resources"])
+		}
+	}
+	if res == nil {
+		return nil
+	}
+	d, _ := ctx.DereferenceDict(res[c])
+	return d
+}
+
+// consolidateK: the real ConsolidatePageResources on the read document against the model's
+// consolidateCloned, per category: shared dict afterwards | every page's own dict afterwards.
+func consolidateK(r *vh.Run, doc []byte, sp *sharedSpec) {
+	ctx, err := readCtx(doc)
+	if err != nil {
+		return
+	}
+	before := map[string]string{}
+	for c := range sp.names {
+		if d := sharedCat(ctx, sp, c); d != nil {
+			before[c] = kvString(d)
+		}
+	}
+	perr := func() (e error) {
+		defer func() {
+			if x := recover(); x != nil {
+				e = fmt.Errorf("panic: %v", x)
+			}
+		}()
+		return ctx.ConsolidatePageResources()
+	}()
+	if perr != nil {
+		r.Count("doc:shared:consolidate-error")
+		return
+	}
+	for _, c := range resCats {
+		if _, ok := before[c]; !ok {
+			continue
+		}
+		var pages, impl []string
+		for p := range sp.used {
+			u := []string{}
+			for _, n := range sp.used[p][c] {
+				u = append(u, hx(n))
+			}
+			pages = append(pages, strings.Join(u, ","))
+			pd, _, _, err := ctx.PageDict(p+1, false)
+			own := ""
+			if err == nil && pd != nil {
+				if res, _ := ctx.DereferenceDict(pd["Resources"]); res != nil {
+					if _, isRef := pd["Resources"].(types.IndirectRef); isRef {
+						own = "SHARED-RESOURCES-REF"
+					} else if cd, ok := res[c].(types.Dict); ok {
+						own = kvString(cd)
+					} else if res[c] != nil {
+						own = "NOT-A-DIRECT-DICT"
+					}
+				}
+			}
+			impl = append(impl, own)
+		}
+		after := ""
+		if d := sharedCat(ctx, sp, c); d != nil {
+			after = kvString(d)
+		}
+		r.Case("Consolidate", []string{before[c], strings.Join(pages, ";")}, after+"|"+strings.Join(impl, ";"))
+	}
+}
+
 // a content stream whose raw bytes are also a valid ASCIIHex body: the same Raw under two
 // different stream dictionaries
 func genRawTwinDoc(r *rand.Rand) []byte {
@@ -1327,6 +1562,20 @@ func (c *ctxUnf) canonDict(d types.Dict, depth int, stream bool) string {
 	return s + ">"
 }
 
+var resCats = []string{"Font", "XObject", "ExtGState", "ColorSpace", "Pattern", "Shading", "Properties"}
+
+var resRe = regexp.MustCompile(` ([A-Za-z]+/[A-Za-z0-9]+)=`)
+
+// resNames: the "Category/Name" entries of a page fingerprint
+func resNames(fp string) map[string]bool {
+	m := map[string]bool{}
+	i := strings.Index(fp, "content=")
+	for _, x := range resRe.FindAllStringSubmatch(fp[i:], -1) {
+		m[x[1]] = true
+	}
+	return m
+}
+
 var nameRe = regexp.MustCompile(`/([A-Za-z0-9]+)`)
 
 func fingerprint(ctx *model.Context) (fp []string, err error) {
@@ -1359,7 +1608,7 @@ func fingerprint(ctx *model.Context) (fp []string, err error) {
 				continue
 			}
 			seen[n] = true
-			for _, cat := range []string{"Font", "XObject"} {
+			for _, cat := range resCats {
 				if inh.Resources == nil {
 					continue
 				}
@@ -1447,6 +1696,12 @@ func docOracle(r *vh.Run, doc []byte, dupContent bool, kind string) {
 	for i := range fpA {
 		if fpA[i] != fpB[i] {
 			class := "optimize-page-fingerprint"
+			na := resNames(fpA[i])
+			for n := range resNames(fpB[i]) {
+				if !na[n] {
+					class = "optimize-page-loses-used-resource"
+				}
+			}
 			if contentOf(fpA[i]) != contentOf(fpB[i]) {
 				class = "optimize-page-content"
 				if kind == "rawtwin" {
@@ -1544,6 +1799,11 @@ func main() {
 	for i := 0; i < nDocs; i++ {
 		doc, _ := genDoc(r.Rand)
 		docOracle(r, doc, r.Rand.Intn(2) == 0, "gen")
+	}
+	for i, n := 0, r.Pick(150, 3000); i < n; i++ {
+		doc, sp := genSharedDoc(r.Rand)
+		docOracle(r, doc, r.Rand.Intn(2) == 0, fmt.Sprintf("shared%d", sp.layout))
+		consolidateK(r, doc, sp)
 	}
 	mixedCycleDocOracle(r)
 	for i := 0; i < 2; i++ {
